@@ -22,6 +22,8 @@ class Solution:
         self.graph = None
         self.strings = {}
         self.registry = None
+        if " \tCL " in text:
+            text, _ = text.split(" \tCL ", 1)
         if " \tTI " in text:
             text, ti = text.split(" \tTI ", 1)
             try:
